@@ -69,6 +69,15 @@ T5 = {
    "Input.get_word_completions on the real wordlist for ~4k prefixes in six letter-case variants against a case-sensitive reference"),
  "agent5-C20-bare-address-index": ("C20", "a hint whose hostname is the empty string",
    "C20 hint-lists: hint-aborted / hint-raises IndexError (transit and dilation)", "reported", ""),
+ "agent5-C08-welcome-dedup": ("C08", "a connection loss after the first (friendly) welcome, then a reconnection whose welcome carries an error",
+   "C08 solo-set/alloc-unwelcome-on-reconnect, pair-set-unwelcome-on-reconnect-dev: verdict (LonelyError instead of WelcomeError)",
+   "missed (the welcome was the same on every connection of a scenario)", "welcome_later: the welcome of a reconnection differs from the first one; three C08 scenarios"),
+ "agent5-C17-stop-pending-skips-called": ("C17", "close() while an outbound TCP connection attempt is in flight (scheduled, not yet answered)",
+   "C17 pair-close0-dev ...: resources-freed/pending-attempt-at-closed",
+   "missed (pending attempts were judged at quiescence only, and at quiescence every attempt has been answered: the late connection is refused by an exception and closed)",
+   "invariant on every state: once closed was delivered the closed side owns no attempt in flight and no listener"),
+ "agent5-C18-closing-error-stays-closing": ("C18", "an internal error reaching the Boss while it is closing, then the shutdown completing (delegate mode)",
+   "C18 delegate-junk-response: once (closed twice)", "reported", ""),
 }
 if __name__ == "__main__":
     for name, (prop, needs, det, fp, added) in T5.items():
